@@ -173,7 +173,9 @@ pub fn run(run: &Run) -> (u64, u64) {
         "4k3/8/8/8/8/8/8/4K3 w - -",
         "7k/8/8/8/8/8/8/K7 b - - 99 4294967295",
     ];
-    let alphabet: Vec<char> = "pnbrqkPNBRQK12345678 /-wb09aehx+é".chars().collect();
+    // (incl. characters that are numeric or alphabetic for Unicode but not ASCII: fullwidth, Arabic-Indic and superscript
+    // digits, a vulgar fraction, a Roman numeral, a Cyrillic and a fullwidth letter)
+    let alphabet: Vec<char> = "pnbrqkPNBRQK12345678 /-wb09aehx+é８٣²½Ⅷкｗ".chars().collect();
     let mut edits: Vec<String> = vec![];
     for b in bases {
         let cs: Vec<char> = b.chars().collect();
